@@ -63,7 +63,7 @@ func g9Tabulate(c *Ctx, name string, fi *FuncInfo) {
 		}
 	}
 	c.Rep.analysed("G9_rows:"+name, rows)
-	if short == "canEqual" && strings.HasPrefix(name, "equal.") {
+	if short == "canEqual" {
 		// `==` on a struct is field-wise ==: it bypasses the Equal method of every component. The predicate that licenses `==`
 		// must therefore refuse a type that declares its own Equal method (and with it every struct or array containing one).
 		if !g9AsksMethod[name] {
@@ -83,7 +83,7 @@ func g9Row(c *Ctx, name, short string, fi *FuncInfo, in *Interp, arg *VOpaque, r
 		fmt.Fprintf(os.Stderr, "G9ROW %s %v res=%v msg=%s\n", name, in.decisions, res, msg)
 	}
 	for _, d := range in.decisions {
-		if strings.Contains(d.Sym, "MethodInputParam(") || strings.HasSuffix(d.Fn, "MethodInputParam") {
+		if strings.Contains(d.Sym, "MethodInputParam(") || strings.HasSuffix(d.Fn, "MethodInputParam") || strings.HasSuffix(d.Fn, "hasEqualMethod") || strings.Contains(d.Sym, "hasEqualMethod(") {
 			g9AsksMethod[name] = true
 			// a type with its own Equal method must be refused
 			if b, ok := res.(VBool); ok && d.Choice == 0 && strings.HasSuffix(d.Sym, "!=nil") && b.Known && b.V && strings.Contains(d.Sym, "("+arg.Origin+",)") {
